@@ -149,12 +149,18 @@ Section WriteRead.
   Variable deflate : bytes -> bytes.
   Variable c : cfg.
 
-  (* C01: an object, written after "obj" LF and followed by LF, reads back as its normal form *)
-  Hypothesis parse_fmt : forall o rest, parse (LF :: fmt o ++ LF :: rest) = Some (norm o, LF :: rest).
-  (* a stream dictionary with its /Length (direct, padded or a reference) reads back as a
-     dictionary whose /Length is that value and whose other entries are the normal form *)
-  Hypothesis parse_sd : forall sd lr rest, exists d',
-      parse (LF :: fmt_sd sd lr ++ LF :: rest) = Some (ODict d', LF :: rest) /\
+  (* the values the object syntax can carry (bytes below 256, real tokens that are reals, distinct
+     dictionary keys ...): a predicate of the abstract syntax *)
+  Variable wfo : obj -> Prop.
+  (* C01: a well-formed object, written after "obj" LF and followed by LF "endobj", reads back as
+     its normal form.  (The context matters: "5" LF "0 R" is a reference, so no parser satisfies
+     this for every continuation.) *)
+  Hypothesis parse_fmt : forall o rest, wfo o ->
+      parse (LF :: fmt o ++ LF :: kw_endobj ++ rest) = Some (norm o, LF :: kw_endobj ++ rest).
+  (* a stream dictionary with its /Length (direct, padded or a reference), followed by LF "stream",
+     reads back as a dictionary whose /Length is that value and whose other entries are the normal form *)
+  Hypothesis parse_sd : forall sd lr rest, wfo (ODict sd) -> exists d',
+      parse (LF :: fmt_sd sd lr ++ LF :: kw_stream ++ rest) = Some (ODict d', LF :: kw_stream ++ rest) /\
       dict_get k_Length d' = Some (lenval lr) /\
       ODict (dict_del k_Length d') = norm (ODict sd).
   Hypothesis decS_encS : forall n g s, decS n g (encS n g s) = s.
@@ -177,6 +183,15 @@ Section WriteRead.
               (stream_raw encB fenc c n g d fs data)
     end.
 
+  (* what was written is well-formed as it was formatted (strings after encryption) *)
+  Definition wf_record (n g : N) (v : wval) : Prop :=
+    match v with
+    | VObj o => wfo (map_str (sc encS c n g) o)
+    | VStream d fs data => wfo (ODict (enc_dict encS c n g (stream_dict n g d fs)))
+    end.
+  Definition wr_wf (st : state) : Prop :=
+    forall n g v, wlookup n (wr st) = Some (g, v) -> wf_record n g v.
+
   Lemma dec_enc_obj n g o :
     map_str (sd decS (encrypted c) false n g) (norm (map_str (sc encS c n g) o)) = norm o.
   Proof.
@@ -186,16 +201,18 @@ Section WriteRead.
   Qed.
 
   Lemma read_at_obj getint st off n g o rest :
+    wfo (map_str (sc encS c n g) o) ->
     skipn (N.to_nat off) (out st) =
       (hdr_of n g ++ fmt (map_str (sc encS c n g) o) ++ k_endobj_nl ++ nl c) ++ rest ->
     read_at getint (rs_of st) off n g = Ok (RObj (norm o)).
   Proof.
-    intros H. unfold Reader.read_at, drop. cbn [rs_of rfile rhdr rplain]. rewrite N.add_0_r, H.
+    intros Wf H. unfold Reader.read_at, drop. cbn [rs_of rfile rhdr rplain]. rewrite N.add_0_r, H.
     rewrite <- app_assoc, read_header_hdr.
     replace (LF :: (fmt (map_str (sc encS c n g) o) ++ k_endobj_nl ++ nl c) ++ rest)
       with (LF :: fmt (map_str (sc encS c n g) o) ++ LF :: (kw_endobj ++ [LF] ++ nl c ++ rest)).
     2:{ unfold k_endobj_nl. rewrite <- !app_assoc. reflexivity. }
-    rewrite parse_fmt. cbn [existsb].
+    change (kw_endobj ++ [LF] ++ nl c ++ rest) with (kw_endobj ++ ([LF] ++ nl c ++ rest)).
+    rewrite (parse_fmt _ _ Wf). cbn [existsb].
     replace (skip_ws (LF :: kw_endobj ++ [LF] ++ nl c ++ rest)) with (kw_endobj ++ [LF] ++ nl c ++ rest) by reflexivity.
     replace (prefixb kw_stream (kw_endobj ++ [LF] ++ nl c ++ rest)) with false by reflexivity.
     rewrite prefixb_app, !N.eqb_refl. cbn [andb]. rewrite dec_enc_obj. reflexivity.
@@ -203,6 +220,7 @@ Section WriteRead.
 
   Lemma read_at_stream getint st off n g d fs data lr rest :
     let raw := stream_raw encB fenc c n g d fs data in
+    wfo (ODict (enc_dict encS c n g (stream_dict n g d fs))) ->
     skipn (N.to_nat off) (out st) =
       stream_chunk fmt_sd c n g (enc_dict encS c n g (stream_dict n g d fs)) lr raw ++ rest ->
     (match lr with
@@ -211,13 +229,13 @@ Section WriteRead.
      end) ->
     read_at getint (rs_of st) off n g = Ok (rval_of n g (VStream d fs data)).
   Proof.
-    intros raw H Hl. unfold Reader.read_at, drop. cbn [rs_of rfile rhdr rplain]. rewrite N.add_0_r, H.
+    intros raw Wf H Hl. unfold Reader.read_at, drop. cbn [rs_of rfile rhdr rplain]. rewrite N.add_0_r, H.
     unfold stream_chunk. rewrite <- (app_assoc (hdr_of n g)), read_header_hdr.
     set (sdd := enc_dict encS c n g (stream_dict n g d fs)).
     replace (LF :: (fmt_sd sdd lr ++ k_stream_nl ++ raw ++ k_endstream_endobj ++ nl c) ++ rest)
       with (LF :: fmt_sd sdd lr ++ LF :: (kw_stream ++ LF :: raw ++ (LF :: kw_endstream ++ LF :: kw_endobj ++ [LF]) ++ nl c ++ rest)).
     2:{ unfold k_stream_nl, k_endstream_endobj. rewrite <- !app_assoc. reflexivity. }
-    destruct (parse_sd sdd lr (kw_stream ++ LF :: raw ++ (LF :: kw_endstream ++ LF :: kw_endobj ++ [LF]) ++ nl c ++ rest))
+    destruct (parse_sd sdd lr (LF :: raw ++ (LF :: kw_endstream ++ LF :: kw_endobj ++ [LF]) ++ nl c ++ rest) Wf)
       as [d' [P1 [P2 P3]]].
     rewrite P1. cbn [existsb].
     set (Y := (LF :: kw_endstream ++ LF :: kw_endobj ++ [LF]) ++ nl c ++ rest).
@@ -282,43 +300,54 @@ Section WriteRead.
     - destruct (g =? 0) eqn:E; [apply N.eqb_eq in E; contradiction | reflexivity].
   Qed.
 
-  Lemma get_int_written ops st r len :
-    run ops = Ok st -> strm st = None -> written_int st r len ->
-    get 1 (rs_of st) r 0 = Ok (RObj (OInt (Z.of_N len))).
+  Lemma get_int_written_f f ops st r len :
+    run ops = Ok st -> strm st = None -> wr_wf st -> written_int st r len ->
+    get (S f) (rs_of st) r 0 = Ok (RObj (OInt (Z.of_N len))).
   Proof.
-    intros H Hs [off [Hx Hw]].
-    destruct (layout_recorded ops st H Hs r off 0 _ Hx Hw) as [v [ch [rest [W [S C]]]]].
+    intros H Hs WF [off [Hx Hw]].
+    destruct (layout_recorded ops st H Hs r off 0 _ Hx Hw) as [v [ch [rest [W [Sk C]]]]].
     rewrite Hw in W. injection W as <-. unfold LayoutProofs.chunk_of in C. subst ch.
-    rewrite (get_use 0 (rs_of st) r 0 off Hx).
-    rewrite (read_at_obj _ st off r 0 (OInt (Z.of_N len)) rest S). reflexivity.
+    rewrite (get_use f (rs_of st) r 0 off Hx).
+    rewrite (read_at_obj _ st off r 0 (OInt (Z.of_N len)) rest (WF _ _ _ Hw) Sk). reflexivity.
   Qed.
 
-  (* Get of a reference with a record returns the record *)
-  Lemma get_written_lemma ops st :
-    run ops = Ok st -> strm st = None ->
+  (* Get of a reference with a record returns the record (any fuel from 2) *)
+  Lemma get_written_f f ops st :
+    run ops = Ok st -> strm st = None -> wr_wf st ->
     forall n off g v, xlookup n (xref st) = Some (EUse off g) -> wlookup n (wr st) = Some (g, v) ->
-      get 2 (rs_of st) n g = Ok (rval_of n g v).
+      get (S (S f)) (rs_of st) n g = Ok (rval_of n g v).
   Proof.
-    intros H Hs n off g v Hx Hw.
-    destruct (layout_recorded ops st H Hs n off g _ Hx Hw) as [v' [ch [rest [W [S C]]]]].
-    rewrite Hw in W. injection W as <-.
-    rewrite (get_use 1 (rs_of st) n g off Hx).
+    intros H Hs WF n off g v Hx Hw.
+    destruct (layout_recorded ops st H Hs n off g _ Hx Hw) as [v' [ch [rest [W [Sk C]]]]].
+    rewrite Hw in W. injection W as <-. pose proof (WF _ _ _ Hw) as Wv.
+    rewrite (get_use (S f) (rs_of st) n g off Hx).
     destruct v as [o|d fs data]; unfold LayoutProofs.chunk_of in C.
-    - subst ch. rewrite (read_at_obj _ st off n g o rest S). reflexivity.
-    - cbv zeta in C. destruct C as [lr [-> L]]. eapply read_at_stream; [exact S|].
+    - subst ch. rewrite (read_at_obj _ st off n g o rest Wv Sk). reflexivity.
+    - cbv zeta in C. destruct C as [lr [-> L]]. eapply read_at_stream; [exact Wv | exact Sk|].
       destruct lr as [l|l|r]; unfold len_ok in L; auto.
       destruct L as [[]|L].
-      rewrite (get_int_written ops st r _ H Hs L). reflexivity.
+      rewrite (get_int_written_f f ops st r _ H Hs WF L). reflexivity.
   Qed.
 
+  Lemma get_int_written ops st r len :
+    run ops = Ok st -> strm st = None -> wr_wf st -> written_int st r len ->
+    get 1 (rs_of st) r 0 = Ok (RObj (OInt (Z.of_N len))).
+  Proof. apply (get_int_written_f 0). Qed.
+
+  Lemma get_written_lemma ops st :
+    run ops = Ok st -> strm st = None -> wr_wf st ->
+    forall n off g v, xlookup n (xref st) = Some (EUse off g) -> wlookup n (wr st) = Some (g, v) ->
+      get 2 (rs_of st) n g = Ok (rval_of n g v).
+  Proof. apply (get_written_f 0). Qed.
+
   Lemma same_value_two_numbers_lemma ops st o n1 off1 g1 n2 off2 g2 :
-    run ops = Ok st -> strm st = None ->
+    run ops = Ok st -> strm st = None -> wr_wf st ->
     xlookup n1 (xref st) = Some (EUse off1 g1) -> wlookup n1 (wr st) = Some (g1, VObj o) ->
     xlookup n2 (xref st) = Some (EUse off2 g2) -> wlookup n2 (wr st) = Some (g2, VObj o) ->
     get 2 (rs_of st) n1 g1 = Ok (RObj (norm o)) /\ get 2 (rs_of st) n2 g2 = Ok (RObj (norm o)).
   Proof.
-    intros H Hs X1 W1 X2 W2. split.
-    - exact (get_written_lemma ops st H Hs n1 off1 g1 (VObj o) X1 W1).
-    - exact (get_written_lemma ops st H Hs n2 off2 g2 (VObj o) X2 W2).
+    intros H Hs WF X1 W1 X2 W2. split.
+    - exact (get_written_lemma ops st H Hs WF n1 off1 g1 (VObj o) X1 W1).
+    - exact (get_written_lemma ops st H Hs WF n2 off2 g2 (VObj o) X2 W2).
   Qed.
 End WriteRead.
